@@ -9,3 +9,8 @@ func specNonConfigurable(v Value) bool {
 	p, ok := v.(*valueProperty)
 	return ok && p != nil && !p.configurable
 }
+
+// specDenseWF: dense storage never holds more slots than the array is long.
+func specDenseWF(a *arrayObject) bool {
+	return a == nil || len(a.values) <= int(a.length)
+}
